@@ -347,6 +347,8 @@ def _make_periods_from_strings(op, expect_one):
             c = rt.ctx()
             if c is None:
                 return orig(strings, *args, **kwargs)
+            # a one-shot iterable (generator, map, iterator) is read once for the oracle and handed on as a one-shot iterator again
+            one_shot = not isinstance(strings, (list, tuple))
             strings = tuple(strings)
             fr = kwargs.get("frequency", args[0] if args else None)
             try:
@@ -356,14 +358,14 @@ def _make_periods_from_strings(op, expect_one):
             except Exception:
                 inside, wants = False, []
             try:
-                result = orig(strings, *args, **kwargs)
+                result = orig(iter(strings) if one_shot else strings, *args, **kwargs)
             except Exception as exc:
                 _raised(c, op, exc, wants[0][1][0] if inside else "?", inside, f"{strings[:3]!r} frequency={fr!r}")
                 raise
             if inside:
                 try:
                     f = wants[0][1][0]
-                    c.event("parse", op, key=f"{f}|{op}|{'auto' if fr is None else 'given'}|{min(len(strings), 3)}", n=1)
+                    c.event("parse", op, key=f"{f}|{op}|{'auto' if fr is None else 'given'}|{min(len(strings), 3)}|{'iterator' if one_shot else 'sequence'}", n=1)
                     got = [_abs(p) for p in result]
                     if got != [w[1] for w in wants]:
                         c.violation(f"{op}:wrong-periods:{f}", f"{strings[:4]!r} -> {got[:4]}")
@@ -568,10 +570,15 @@ def _run_period(c, case):
             ok3, sd2 = _try(c, "to_sdmx_string", lambda: (p + 1).to_sdmx_string(), f, cal.in_calendar(f, k + 1))
             if ok3 and cal.in_calendar(f, k + 1):
                 for name, fn in (("sdmx:periods_from_sdmx_strings(auto)", lambda: D.periods_from_sdmx_strings([sd, sd2])),
-                                 ("sdmx:periods_from_sdmx_strings(frequency)", lambda: D.periods_from_sdmx_strings((sd, sd2), frequency=F))):
+                                 ("sdmx:periods_from_sdmx_strings(frequency)", lambda: D.periods_from_sdmx_strings((sd, sd2), frequency=F)),
+                                 ("sdmx:periods_from_sdmx_strings(auto,generator)", lambda: D.periods_from_sdmx_strings(s_ for s_ in (sd, sd2))),
+                                 ("sdmx:periods_from_sdmx_strings(frequency,map)", lambda: D.periods_from_sdmx_strings(map(str, [sd, sd2]), frequency=F))):
                     okr, r = _try(c, name, fn, f)
                     if okr:
                         _law(c, name, [_abs(x) for x in r] == [a, (f, k + 1)], f"{f}|{pk}", lambda: f"{[sd, sd2]} -> {[_abs(x) for x in r]}", f)
+                okr, r = _try(c, "sdmx:periods_from_sdmx_strings(one string,iterator)", lambda: D.periods_from_sdmx_strings(iter([sd])), f)
+                if okr:
+                    _law(c, "sdmx:periods_from_sdmx_strings(one string,iterator)", [_abs(x) for x in r] == [a], f"{f}|{pk}", lambda: f"{[sd]} -> {[_abs(x) for x in r]}", f)
 
         # ---- repr evaluated back in the irispie namespace
         ok, rp = _try(c, "repr", lambda: repr(p), f)
